@@ -43,7 +43,43 @@ SECS = {"elf": [".data", ".rodata"], "pe": [".data", ".rdata"]}
 EXEC2 = {"elf": ".text.cold", "pe": ".cold"}
 
 
-def gen_case(rng, tier, index):
+# forms the assembler must refuse (UnsupportedAssemblyError), never turn into
+# something else: {isa: [(name, text with {a} {b})]}
+REFUSED_FORMS = {
+    "x64": [
+        ("variant-left-of-difference", ".quad {a}@GOTPCREL - {b}"),
+        ("variant-right-of-difference", ".long {a} - {b}@GOTPCREL"),
+        ("variant-left-of-difference", ".long {a}@PLT - {b}"),
+        ("variant-both-sides-of-difference", ".long {a}@GOT - {b}@GOT"),
+        ("branch-target-with-offset", "jmp {a}+4"),
+        ("branch-target-with-offset", "call {a}+8"),
+        ("branch-target-with-offset", "jne {a}+1"),
+        ("symbol-minus-constant", "movq {a}-8(%rip), %rax"),
+        ("sum-of-symbols", ".long {a}+{b}"),
+        ("scaled-symbol", ".long {a}*2"),
+        ("difference-plus-constant", ".quad {a} - {b} + 4"),
+    ],
+    "arm64": [
+        ("branch-target-with-offset", "b {a}+4"),
+        ("branch-target-with-offset", "bl {a}+8"),
+        ("branch-target-with-offset", "b.eq {a}+4"),
+        ("branch-target-with-offset", "cbz x0, {a}+4"),
+        ("branch-target-with-offset", "tbz x0, #1, {a}+4"),
+        ("symbol-minus-constant", "adrp x0, {a}-8"),
+    ],
+}
+
+
+def gen_case(rng, tier, index, programs_only=False):
+    if index % 40 == 39 and not programs_only:
+        isa = rng.choice(["x64", "x64", "arm64"])
+        name, text = rng.choice(REFUSED_FORMS[isa])
+        pool = ["msym_code", "msym_data", "mext", "here"]
+        return {"w": "refuse", "isa": isa, "fmt": "elf",
+                "pie": rng.random() < 0.5, "bintype": ["DYN"],
+                "form": name, "text": text,
+                "a": rng.choice(pool), "b": rng.choice(pool[:3]),
+                "before": rng.randrange(0, 3), "after": rng.randrange(0, 3)}
     isa, fmt = rng.choice(CONFIGS)
     c = {"isa": isa, "fmt": fmt, "pie": fmt == "elf" and rng.random() < 0.5,
          "intel": isa == "x64" and rng.random() < 0.3,
@@ -317,7 +353,34 @@ def target_module(c):
     return m, syms
 
 
+def run_refuse(c):
+    from gtirb_rewriting.assembler import (Assembler,
+                                           UnsupportedAssemblyError)
+    m, msyms = target_module(c)
+    nop = vocab.asm_text(c["isa"], "nop")
+    text = (nop + "\n") * c["before"] + "here:\n" + \
+        c["text"].format(a=c["a"], b=c["b"]) + "\n" + \
+        (nop + "\n") * c["after"]
+    viol = []
+    asm = Assembler(m)
+    try:
+        asm.assemble(text)
+        asm.finalize()
+        viol.append({"key": f"asm:unsupported-form-accepted:{c['form']}",
+                     "msg": text})
+    except UnsupportedAssemblyError:
+        pass
+    except Exception as exc:  # noqa
+        viol.append({"key": f"asm:unsupported-form-raises-"
+                            f"{type(exc).__name__}:{c['form']}",
+                     "msg": f"{exc!r}\n{text}"[:600]})
+    return {"sig": f"refuse:{c['isa']}:{c['form']}:{c['text'].split()[0]}",
+            "violations": viol, "counters": {"refusal_probes": 1}}
+
+
 def run_case(c):
+    if c.get("w") == "refuse":
+        return run_refuse(c)
     from gtirb_rewriting.assembler import Assembler
     from gtirb_rewriting.assembly import X86Syntax
     viol = []
